@@ -136,6 +136,21 @@ def late_branch_kill(sig, ctx) -> bool:
     return False
 
 
+def jump_after_cancel(sig, ctx) -> bool:
+    """A JumpToStage handled after the cancel was accepted re-arms stages the cancel had already marked CANCELED:
+    they end NOT_STARTED (re-armed, version > 0) in a CANCELED workflow."""
+    if ctx["formula"] not in sig["formulas"]:
+        return False
+    prog = ctx["program"]
+    if not any(t["k"] in ("jump", "jump2") for s in prog["stages"] for t in s["tasks"]):
+        return False
+    s = _st(ctx)
+    bad = [k for k, v in (s.get("st") or {}).items() if v.get("status") not in ("CANCELED", "SUCCEEDED", "SKIPPED", "TERMINAL",
+                                                                                 "FAILED_CONTINUE", "STOPPED")]
+    return bool(bad) and all(s["st"][k]["status"] == "NOT_STARTED" and s["st"][k]["ver"] > 0 for k in bad) \
+        and s.get("wf", {}).get("status") == "CANCELED"
+
+
 def race_formula(sig, ctx) -> bool:
     return ctx.get("source") == "race-model" and ctx["formula"] in sig["formulas"] and ctx.get("scenario") in sig["scenarios"]
 
@@ -152,5 +167,6 @@ PREDICATES = {
     "claim_plan_window_data": claim_plan_window_data,
     "late_branch_kill": late_branch_kill,
     "race_formula": race_formula,
+    "jump_after_cancel": jump_after_cancel,
     "always": always,
 }
